@@ -8,7 +8,7 @@
    abstract value [fsn] whose listing ORDER is arbitrary (every theorem
    quantifies over it); special files appear only as [Other] = skipped. *)
 From Coq Require Import List ZArith Bool Permutation Sorted.
-From NT Require Import Sx Rose FsLoad FsLoadProofs.
+From NT Require Import Sx Rose FsLoad FsLoadProofs FsSaveLoadProofs.
 From NTGen Require Import Generated.
 Import ListNotations.
 Open Scope Z_scope.
@@ -111,6 +111,21 @@ Theorem C19_entry_constructor : forall n d s m e,
   (d = true -> s = None /\ e_size e = 0) /\ (d = false -> s = Some (e_size e)).
 Proof. exact mk_entry_inv. Qed.
 Print Assumptions C19_entry_constructor.
+
+(* ---- save + load of a FileSystemTree: [to_list] = Node.to_list_iter with the serialize mapper
+   (parent-referencing flat list, pre-order numbers), [from_list] = Tree._from_list with the
+   deserialize mapper; byte transport (json, zip) is the identity (trusted, exercised).
+   Every forest whose entries are [entry_ok] comes back unchanged: same shape, same order,
+   same name / flag / size / mtime on every node ---- *)
+Theorem C19_save_load_roundtrip : forall f : list ft, ok_f f -> save_load f = Some f.
+Proof. exact save_load_roundtrip. Qed.
+Print Assumptions C19_save_load_roundtrip.
+
+(* ... in particular every tree that load_tree_from_fs builds, for every directory, listing order, sort flag *)
+Theorem C19_loaded_tree_survives_save_load : forall (sort : bool) (listing : list fsn),
+  save_load (load sort listing) = Some (load sort listing).
+Proof. exact load_save_load. Qed.
+Print Assumptions C19_loaded_tree_survives_save_load.
 
 (* outside [entry_ok] the mappers are NOT inverse (a folder entry built by hand with an
    mdate loses it): the hypothesis is needed; the loader never builds such an entry *)
